@@ -140,7 +140,9 @@ class C17(Prop):
           "init callbacks) is built five ways out of uniquely named logging callbacks (plain "
           "functions, functools.partial objects or callable objects, each carrying a __name__): hand-written "
           "closures; state_method_template + register_signal_callback + register_parent on an "
-          "HsmWithQueues (two charts are built from the same recipe before either is started); the "
+          "HsmWithQueues (two charts are built from the same recipe before either is started; in half the cases a "
+          "third template chart gets one of its callbacks registered only after it has processed some "
+          "events, and must answer from then on); the "
           "to_code text of every template state exec'd in a namespace holding spy_on, signals, "
           "return_status and the callbacks; Factory.create/catch/nest (function-object form) as a "
           "started active object under the deterministic scheduler; and the Factory's to_code text. "
@@ -163,8 +165,9 @@ class C17(Prop):
         spec["entry"][case["start"]] = True
       return case
     flav = st.sampled_from([["function"], ["function"], ["function", "partial", "object"], ["partial"], ["object"]])
-    return st.tuples(chartgen.chart_case(max_events=8, max_states=8, max_sigs=3, spy=True), flav).map(
-      lambda t: some_callback(dict(t[0], spec=dict(t[0]["spec"], flavours=t[1]))))
+    return st.tuples(chartgen.chart_case(max_events=8, max_states=8, max_sigs=3, spy=True), flav,
+                     st.one_of(st.none(), st.integers(0, 200))).map(
+      lambda t: some_callback(dict(t[0], spec=dict(t[0]["spec"], flavours=t[1]), late=t[2])))
 
   def transcript_direct(self, case, chart, build):
     from miros.event import Event, signals
@@ -281,6 +284,72 @@ class C17(Prop):
     guarded("factory", factory)
     if "f" in holder:
       guarded("to_code(factory)", lambda: from_code(holder["f"], holder["bf"], "factory"))
+
+    # a callback registered AFTER the chart has been running: the state answers from then on
+    late = case.get("late")
+    cands = [(i, sg) for i in range(spec["n"]) for sg, r in sorted(spec["react"][i].items()) if r[0] != "guard"]
+    def sole(i, sg):
+      # the state's ONLY callback (registering it later is the state's very first registration)
+      return not (spec["entry"][i] or spec["exit"][i] or spec["initc"][i] or spec["init"][i] is not None) \
+          and list(spec["react"][i]) == [sg]
+    if late is not None and cands and case["events"]:
+      preferred = [c for c in cands if sole(*c)] if late % 3 else []
+      i_l, sg_l = (preferred or cands)[late % len(preferred or cands)]
+      k_l = 1 + late % len(case["events"])      # after at least one event has passed through
+      if late % 3 == 1 and spec["init"][i_l] is None:
+        # make it the state's very FIRST callback, and make sure the state is asked about that
+        # signal before and after the registration
+        import copy as _copy
+        spec = _copy.deepcopy(spec)
+        spec["entry"][i_l] = spec["exit"][i_l] = spec["initc"][i_l] = False
+        spec["react"][i_l] = {sg_l: spec["react"][i_l][sg_l]}
+        case = dict(case, spec=spec, start=i_l, events=[sg_l] * len(case["events"]))
+      import copy
+      spec0 = copy.deepcopy(spec)
+      del spec0["react"][i_l][sg_l]
+      if any(spec0["entry"]) or any(spec0["exit"]) or any(spec0["initc"]) or any(x is not None for x in spec0["init"]) \
+         or any(spec0["react"]):
+        m = Model(copy.deepcopy(spec0))     # the model's reactions are updated mid-history
+
+        def vis2(seq):
+          out = []
+          for x in seq:
+            if x[0] == "SIG":
+              out.append(("SIG", x[1], x[2]))
+            elif (x[0] == "ENTRY" and spec["entry"][x[1]]) or (x[0] == "EXIT" and spec["exit"][x[1]]) or \
+                 (x[0] == "INIT" and (spec["initc"][x[1]] or spec["init"][x[1]] is not None)):
+              out.append((x[0], x[1]))
+          return out
+        want_l = [(vis2(m.start(case["start"])), name_of(m.cur))]
+        for n_, sig in enumerate(case["events"]):
+          if n_ == k_l:
+            m.react[i_l][sg_l] = spec["react"][i_l][sg_l]
+          want_l.append((vis2(m.step(sig)["seq"]), name_of(m.cur)))
+
+        def late_run():
+          t3 = hsmcheck.make_host("queued")
+          b3 = build_template(spec0, t3)
+          full = Build(spec)
+          full.fns, full.log, full.counters = b3.fns, b3.log, b3.counters
+          cb = full.callbacks()[(i_l, sg_l)]
+          out = []
+          t3.start_at(b3.fns[case["start"]])
+          out.append((list(b3.log), t3.state_name))
+          for n_, sig in enumerate(case["events"]):
+            if n_ == k_l:
+              t3.register_signal_callback(b3.fns[i_l], signum(sg_l), cb)
+            del b3.log[:]
+            t3.dispatch(Event(signal=signals[sig]))
+            out.append((list(b3.log), t3.state_name))
+          return out
+        guarded("template (callback registered late)", late_run)
+        got_l = results.pop("template (callback registered late)")
+        if got_l != want_l:
+          k = next(i for i in range(max(len(got_l), len(want_l))) if i >= len(got_l) or i >= len(want_l) or got_l[i] != want_l[i])
+          raise PropertyViolation(
+            "a callback for %s registered on %s before event %d: step %d of the template chart gives %s, "
+            "the reference model gives %s" % (sg_l, name_of(i_l), k_l, k - 1, got_l[k] if k < len(got_l) else None,
+                                                want_l[k] if k < len(want_l) else None), "C17:late-registration")
 
     for name, got in results.items():
       if got != want:
